@@ -101,6 +101,7 @@ type Case struct {
 	Unpacked  []FileObs `json:"unpacked,omitempty"`
 	UnpackRan bool      `json:"unpack_ran"`
 	UnpackErr string    `json:"unpack_err,omitempty"`
+	once      bool      // exhaustive stream: load once
 	Stable    bool      `json:"stable"` // second load gave the same observations
 	Distinct  int       `json:"distinct_outcomes"`
 }
@@ -319,6 +320,10 @@ func runCase(c *Case) {
 		panic(fmt.Sprintf("cannot build image: %v (%+v)", err, c))
 	}
 	c.Views, c.LoadErr = observe(c, img)
+	if c.once {
+		c.Stable, c.Distinct = true, 1
+		return
+	}
 	// Go map iteration order is random inside the implementation: a second load must agree
 	v2, e2 := observe(c, img)
 	a, _ := json.Marshal(c.Views)
@@ -472,7 +477,10 @@ Open Scope Z_scope.
 // ---------------------------------------------------------------- generation
 
 var segsU = []string{"a", "b", "c", "etc", "x"}
-var modes = []int64{0o644, 0o755, 0o600, 0o777, 0o700, 0}
+var modes = []int64{0o644, 0o755, 0o600, 0o777, 0o700, 0, 0o1777, 0o4755, 0o2750, 0o6755, 0o1755, 0o7777, 0o4000, 0o3770}
+
+// names that begin with dots but are neither "." / ".." nor whiteouts
+var dotNames = []string{"..data", "..x", "...", ".hidden", ".whatever"}
 
 type gen struct {
 	r *rand.Rand
@@ -488,7 +496,11 @@ func (g *gen) relPath(maxDepth int) []string {
 	}
 	var p []string
 	for i := 0; i < d; i++ {
-		p = append(p, g.pick(segsU[:3+g.r.Intn(3)]))
+		if g.r.Intn(9) == 0 {
+			p = append(p, g.pick(dotNames))
+		} else {
+			p = append(p, g.pick(segsU[:3+g.r.Intn(3)]))
+		}
 	}
 	return p
 }
@@ -648,7 +660,7 @@ func (g *gen) diffLayer(root *tnode, explicitParents bool, noise int) []Entry {
 			key := strings.Join(p[:k+1], "/")
 			if explicitParents && !emitted[key] {
 				emitted[key] = true
-				es = append(es, Entry{Name: g.decorate(p[:k+1], true, noise), Kind: "dir", Mode: 0o755})
+				es = append(es, Entry{Name: g.decorate(p[:k+1], true, noise), Kind: "dir", Mode: []int64{0o755, 0o755, 0o1777, 0o2755}[g.r.Intn(4)]})
 			}
 			c = n
 		}
@@ -920,6 +932,69 @@ func (g *gen) genCase(stream string) *Case {
 	return c
 }
 
+// ---------------------------------------------------------------- pinned boundary cases (run first, every time)
+
+func pinnedCases() []*Case {
+	d := func(n string, m int64) Entry { return Entry{Name: n, Kind: "dir", Mode: m} }
+	f := func(n string, m int64, c string) Entry { return Entry{Name: n, Kind: "reg", Mode: m, Content: c} }
+	def := Cfg{Max: 1 << 30, Depth: 6}
+	return []*Case{
+		// names that merely begin with dots, top level and nested; squashed unpack must keep them
+		{Stream: "pinned", Layers: [][]Entry{
+			{d("..data", 0o755), f("..data/config", 0o644, "cfg"), f("..version", 0o644, "1"), f("...", 0o600, "dots"),
+				f(".hidden", 0o644, "h"), f(".whatever", 0o644, "w"), d("etc", 0o755), d("etc/..d", 0o755), f("etc/..d/x", 0o644, "x")},
+			{d("..data", 0o755), f("..data/config", 0o644, "cfg2"), d("etc", 0o755), f("etc/.wh...x", 0, "")}},
+			Hist: []bool{false, false}, Cfg: def, Unpack: true,
+			Probes: []string{".", "..data", "..data/config", "..version", "...", ".hidden", ".whatever", "etc", "etc/..d", "etc/..d/x", "etc/..x", "zz/none"}},
+		// setuid / setgid / sticky on files and explicit directories, in every view
+		{Stream: "pinned", Layers: [][]Entry{
+			{d("tmp", 0o1777), d("bin", 0o755), f("bin/su", 0o4755, "su"), d("srv", 0o2750), f("srv/g", 0o2644, "g"), f("all", 0o7777, "all")},
+			{d("tmp", 0o1777), f("tmp/x", 0o600, "x"), d("bin", 0o755), f("bin/su", 0o6755, "su2")}},
+			Hist: []bool{false, false}, Cfg: def, Unpack: true,
+			Probes: []string{".", "tmp", "tmp/x", "bin", "bin/su", "srv", "srv/g", "all", "zz/none"}},
+	}
+}
+
+// ---------------------------------------------------------------- exhaustive small scope
+
+// every image with 2 layers of at most 2 members each over the names a, b, a/b and the member kinds
+// directory / regular file / whiteout (91 x 91 images), default config
+func exhaustiveCases() []*Case {
+	shapes := func(tag string) []Entry {
+		var l []Entry
+		for _, p := range []string{"a", "b", "a/b"} {
+			wh := ".wh." + p
+			if p == "a/b" {
+				wh = "a/.wh.b"
+			}
+			l = append(l, Entry{Name: p, Kind: "dir", Mode: 0o755}, Entry{Name: p, Kind: "reg", Mode: 0o644, Content: tag + ":" + p},
+				Entry{Name: wh, Kind: "reg", Mode: 0})
+		}
+		return l
+	}
+	layers := func(tag string) [][]Entry {
+		sh := shapes(tag)
+		out := [][]Entry{{}}
+		for _, x := range sh {
+			out = append(out, []Entry{x})
+		}
+		for _, x := range sh {
+			for _, y := range sh {
+				out = append(out, []Entry{x, y})
+			}
+		}
+		return out
+	}
+	var cases []*Case
+	for _, l0 := range layers("L0") {
+		for _, l1 := range layers("L1") {
+			cases = append(cases, &Case{Stream: "exhaustive-2x2", Layers: [][]Entry{l0, l1}, Hist: []bool{false, false},
+				Cfg: Cfg{Max: 1 << 30, Depth: 6}, Probes: []string{".", "a", "b", "a/b", "zz/none"}, once: true})
+		}
+	}
+	return cases
+}
+
 // ---------------------------------------------------------------- pathtree operation sequences
 
 type POp struct {
@@ -1112,6 +1187,7 @@ func main() {
 	n := flag.Int("n", 200, "number of generated cases")
 	per := flag.Int("per", 10, "cases per Coq chunk")
 	replay := flag.String("replay", "", "JSON file with one case (or a list of cases / known findings with a 'witness') to run instead of generating")
+	exh := flag.Bool("exh", false, "enumerate the exhaustive 2-layer family instead of generating")
 	pt := flag.Int("pathtree", -1, "generate this many pathtree operation sequences instead of images")
 	flag.Parse()
 	if *pt >= 0 {
@@ -1163,10 +1239,13 @@ func main() {
 			}
 			cases = append(cases, c)
 		}
+	} else if *exh {
+		cases = exhaustiveCases()
 	} else {
 		g := &gen{r: rand.New(rand.NewSource(*seed))}
 		streams := []string{"diff-explicit", "diff-explicit", "diff-implicit", "diff-implicit", "random", "random", "malformed", "links"}
-		for i := 0; i < *n; i++ {
+		cases = append(cases, pinnedCases()...)
+		for i := len(cases); i < *n; i++ {
 			cases = append(cases, g.genCase(streams[i%len(streams)]))
 		}
 	}
